@@ -27,6 +27,11 @@ pub struct FileSpec {
     /// the entry word carries the synonym flag (bit 0)
     #[serde(default)]
     pub synonym: bool,
+    /// != 0: the entry's hashes are those of the path under ANOTHER category token (category + foreign mod 15): an
+    /// index file lists hashes, not names, so nothing keeps a hash of a path it is not responsible for out of it.
+    /// Such a path resolves to the other category's index files and is absent unless one of those lists it.
+    #[serde(default)]
+    pub foreign: u8,
 }
 
 #[derive(Clone, Debug, Serialize, Deserialize)]
@@ -83,8 +88,8 @@ fn tail() -> BoxedStrategy<String> {
 }
 
 fn file_spec() -> BoxedStrategy<FileSpec> {
-    (tail(), 0u8..8, prop_oneof![4 => 0u16..40, 1 => 0u16..2000], prop_oneof![12 => Just(0u8), 1 => 1u8..8], prop_oneof![5 => Just(0u8), 1 => 1u8..10], prop_oneof![6 => Just(0u8), 1 => Just(1u8), 1 => Just(2u8)], prop::bool::weighted(0.06))
-        .prop_map(|(tail, dat, slot, far, fallback_exp, only, synonym)| FileSpec { tail, dat, slot, far, fallback_exp, only, synonym })
+    (tail(), 0u8..8, prop_oneof![4 => 0u16..40, 1 => 0u16..2000], prop_oneof![12 => Just(0u8), 1 => 1u8..8], prop_oneof![5 => Just(0u8), 1 => 1u8..10], prop_oneof![6 => Just(0u8), 1 => Just(1u8), 1 => Just(2u8)], prop::bool::weighted(0.06), prop_oneof![11 => Just(0u8), 1 => 1u8..15])
+        .prop_map(|(tail, dat, slot, far, fallback_exp, only, synonym, foreign)| FileSpec { tail, dat, slot, far, fallback_exp, only, synonym, foreign })
         .boxed()
 }
 
@@ -119,9 +124,9 @@ fn sweep(ctx: &Ctx) -> Vec<Case> {
                     }
                     let kind = (n % 3) as u8;
                     let files = vec![
-                        FileSpec { tail: format!("d{}/f{}.dat", n % 7, n), dat: (n % 8) as u8, slot: (n % 5) as u16, far: 0, fallback_exp: 0, only: 0, synonym: false },
-                        FileSpec { tail: format!("g{}.tex", n), dat: ((n / 8) % 8) as u8, slot: 7, far: 0, fallback_exp: 0, only: 0, synonym: false },
-                        FileSpec { tail: format!("a/b/c/h{}.mdl", n), dat: 0, slot: 9, far: 0, fallback_exp: 0, only: 0, synonym: false },
+                        FileSpec { tail: format!("d{}/f{}.dat", n % 7, n), dat: (n % 8) as u8, slot: (n % 5) as u16, far: 0, fallback_exp: 0, only: 0, synonym: false, foreign: 0 },
+                        FileSpec { tail: format!("g{}.tex", n), dat: ((n / 8) % 8) as u8, slot: 7, far: 0, fallback_exp: 0, only: 0, synonym: false, foreign: 0 },
+                        FileSpec { tail: format!("a/b/c/h{}.mdl", n), dat: 0, slot: 9, far: 0, fallback_exp: 0, only: 0, synonym: false, foreign: 0 },
                     ];
                     let q = |op, kind, pick| Query { op, kind, pick, flips: vec![n as u16, (n * 7) as u16, 0], salt: "zz".into() };
                     out.push(Case {
@@ -225,7 +230,9 @@ fn materialise(c: &Case) -> (Install, Model) {
                     tail = format!("ffxiv/{}", tail);
                 }
             }
-            let path = if exp == 0 { format!("{}/{}", cat_name, tail) } else { format!("{}/ex{}/{}", cat_name, exp, tail) };
+            let named_cat = if f.foreign != 0 { CATEGORIES[(ch.cat as usize + f.foreign as usize % 15) % 15].0 } else { cat_name };
+            let named_cat = if named_cat == cat_name && f.foreign != 0 { CATEGORIES[(ch.cat as usize + 1) % 15].0 } else { named_cat };
+            let path = if exp == 0 { format!("{}/{}", named_cat, tail) } else { format!("{}/ex{}/{}", named_cat, exp, tail) };
             if !seen_paths.insert(path.clone()) {
                 continue;
             }
